@@ -14,7 +14,7 @@ for s in $seeds; do
   prop=${s%-*}
   case $s in C07-1) props="C12";; C03-6|C03-8) props="C11";; C04-5|C04-7) props="C17";; C07-8) props="C06";; C07-10) props="C03";; C04-12) props="C01";; C09-12) props="C10";; C10-12) props="C14";; C13-12) props="C08";; C17-11) props="C15";; C03-13|C03-14) props="C11";; C04-14|C17-14) props="C15";; C07-13|C07-14) props="C06";; C12-13) props="C01";; C16-13) props="C18";; C08-14) props="C07";; C01-15) props="C04";; C06-16) props="C07";; C07-16) props="C06";; C08-15) props="C07";; C14-15) props="C10";; C15-16) props="C19";; C13-15) props="C08";; *) props="$prop";; esac
   # changes no check can tell apart from an open finding, or whose trigger the harness does not produce (DESIGN.md 13.5)
-  case $s in C02-8|C14-8|C05-9|C05-10|C19-10|C03-16|C08-16|C10-16|C12-15|C17-16|C16-17) expected_miss=1;; *) expected_miss=0;; esac
+  case $s in C02-8|C14-8|C05-9|C05-10|C19-10|C03-16|C08-16|C10-16|C12-15|C17-16) expected_miss=1;; *) expected_miss=0;; esac
   rm -rf "$scratch/sarama"; mkdir -p "$scratch/sarama"
   rsync -a --exclude .git /repo/ "$scratch/sarama/"
   if ! (cd "$scratch/sarama" && patch -p1 -s --no-backup-if-mismatch < $root/seeded/$s/patch.diff); then
